@@ -28,17 +28,17 @@ type Violation struct {
 
 // Result is what one worker shard reports.
 type Result struct {
-	Prop         string            `json:"prop"`
-	Shard        int               `json:"shard"`
-	Evaluations  int64             `json:"evaluations"`
-	Counters     map[string]int64  `json:"counters"`
+	Prop         string              `json:"prop"`
+	Shard        int                 `json:"shard"`
+	Evaluations  int64               `json:"evaluations"`
+	Counters     map[string]int64    `json:"counters"`
 	Observed     map[string][]string `json:"observed"`
-	Samples      []json.RawMessage `json:"samples"`
-	Violations   []Violation       `json:"violations"`
-	Inconclusive map[string]int64  `json:"inconclusive"`
-	Notes        []string          `json:"notes"`
-	WallS        float64           `json:"wall_s"`
-	Completed    bool              `json:"completed"`
+	Samples      []json.RawMessage   `json:"samples"`
+	Violations   []Violation         `json:"violations"`
+	Inconclusive map[string]int64    `json:"inconclusive"`
+	Notes        []string            `json:"notes"`
+	WallS        float64             `json:"wall_s"`
+	Completed    bool                `json:"completed"`
 }
 
 // Ctx is handed to every property runner.
@@ -113,9 +113,9 @@ func (c *Ctx) Journal(desc string) {
 	_, _ = c.journal.WriteAt([]byte(desc), 0)
 }
 
-func (c *Ctx) Eval()           { c.mu.Lock(); c.res.Evaluations++; c.mu.Unlock() }
-func (c *Ctx) EvalN(n int64)   { c.mu.Lock(); c.res.Evaluations += n; c.mu.Unlock() }
-func (c *Ctx) Count(k string)  { c.mu.Lock(); c.res.Counters[k]++; c.mu.Unlock() }
+func (c *Ctx) Eval()          { c.mu.Lock(); c.res.Evaluations++; c.mu.Unlock() }
+func (c *Ctx) EvalN(n int64)  { c.mu.Lock(); c.res.Evaluations += n; c.mu.Unlock() }
+func (c *Ctx) Count(k string) { c.mu.Lock(); c.res.Counters[k]++; c.mu.Unlock() }
 func (c *Ctx) CountN(k string, n int64) {
 	c.mu.Lock()
 	c.res.Counters[k] += n
@@ -312,7 +312,7 @@ type Runner func(c *Ctx)
 var registry = map[string]Runner{}
 
 func Register(id string, r Runner) { registry[id] = r }
-func Lookup(id string) Runner     { return registry[id] }
+func Lookup(id string) Runner      { return registry[id] }
 func IDs() []string {
 	var l []string
 	for k := range registry {
